@@ -43,6 +43,38 @@ pub fn text_of(rng: &mut Rng, chars: usize, token: &str) -> String {
     s
 }
 
+const UNI_WORDS: &[&str] = &["café", "naïve", "Éléonore", "straße", "漢字", "données", "señor", "😀", "Ωmega", "coöperate", "façade", "Zoë"];
+
+/// Like `text_of`, with multi-byte words: a few near the start (so that character offsets and byte offsets
+/// diverge early and stay apart for the rest of the text) and, in half of the texts, some more sprinkled later.
+pub fn text_of_unicode(rng: &mut Rng, chars: usize, token: &str) -> String {
+    let mut s = String::new();
+    for _ in 0..rng.usize(1, 6) {
+        s.push_str(rng.pick(UNI_WORDS));
+        s.push(' ');
+    }
+    let sprinkle = rng.chance(1, 2);
+    let mut placed = false;
+    while s.chars().count() < chars {
+        if !placed && s.chars().count() > chars / 3 {
+            s.push_str(token);
+            s.push(' ');
+            placed = true;
+        }
+        let n = rng.usize(3, 12);
+        for i in 0..n {
+            if sprinkle && rng.chance(1, 30) { s.push_str(rng.pick(UNI_WORDS)); } else { s.push_str(rng.pick(WORDS)); }
+            s.push_str(if i + 1 == n { "" } else { " " });
+        }
+        s.push_str(rng.pick(&[". ", ". ", "! ", "?\n", ".\n", "; "]));
+    }
+    if !placed {
+        s.push(' ');
+        s.push_str(token);
+    }
+    s
+}
+
 /// Payload classes of DESIGN §2/E1. `class` (when given) forces the class; the bytes are a pure
 /// function of (generator state, token, class).
 pub fn gen_payload(rng: &mut Rng, token: &str, small_only: bool) -> (Vec<u8>, &'static str) {
@@ -53,9 +85,11 @@ pub fn gen_payload(rng: &mut Rng, token: &str, small_only: bool) -> (Vec<u8>, &'
         7..=14 => { let n = rng.usize(4, 900); let mut b = rng.bytes(n); b[0] = 0xFF; (b, "small-binary") }
         15..=19 => { let n = rng.usize(1, 4000); (vec![0u8; n], "zero-filled") }
         20..=44 => { let n = rng.usize(10, 900); (text_of(rng, n, token).into_bytes(), "text-small") }
-        45..=52 => { let n = rng.usize(2380, 2420); (text_of(rng, n, token).into_bytes(), "text-threshold") }
+        45..=49 => { let n = rng.usize(2380, 2420); (text_of(rng, n, token).into_bytes(), "text-threshold") }
+        50..=52 => { let n = rng.usize(2380, 2420); (text_of_unicode(rng, n, token).into_bytes(), "text-threshold-unicode") }
         53..=59 => { let n = rng.usize(1000, 2300); (text_of(rng, n, token).into_bytes(), "text-medium") }
-        60..=69 => { let n = rng.usize(2600, 9000); (text_of(rng, n, token).into_bytes(), "text-large") }
+        60..=64 => { let n = rng.usize(2600, 9000); (text_of(rng, n, token).into_bytes(), "text-large") }
+        65..=69 => { let n = rng.usize(2600, 9000); (text_of_unicode(rng, n, token).into_bytes(), "text-large-unicode") }
         70..=75 => { let n = rng.usize(2600, 7000); let mut t = rand_document(rng, n, true); t.push_str(token); (t.into_bytes(), "text-structured") }
         76..=83 => { let n = rng.usize(9_000, 22_000); let mut b = rng.bytes(n); b[0] = 0xFF; (b, "binary-16k") }
         84..=86 => { let n = rng.usize(40_000, 90_000); let mut b = rng.bytes(n); b[0] = 0xFF; (b, "binary-over-wal") }
@@ -489,6 +523,44 @@ fn finish_history(w: &mut World<'_>) {
             Err(e) => w.violation(&format!("C01:open-read-only-failed:{}", err_kind(&e)), format!("open_read_only failed on a committed file: {e}")),
         }
     }
+}
+
+/// A history with multi-megabyte payloads: the log has to grow (by doubling) several times while megabytes of
+/// committed data sit behind it, and commit has to copy / move tens of megabytes. Code that works in fixed-size
+/// blocks (the 8 MiB shift buffer of log growth, the staging copy) sees more than one block only here.
+pub fn run_big_history(rep: &mut Report, dir: &std::path::Path, rng: Rng, cfg: &HistCfg) -> u64 {
+    let mut w = World::new(dir, "mem.mv2", rng, rep);
+    if exec_op(&mut w, cfg, &json!({"op": "create"})) {
+        let n = w.rng.usize(4, 6);
+        for i in 0..n {
+            if w.failed { break; }
+            w.rep.eval();
+            let token = w.next_token();
+            let big = if i + 1 == n { w.rng.usize(8_400_000, 9_500_000) } else { w.rng.usize(2_500_000, 5_500_000) };
+            let c = w.counter;
+            let put = json!({"op": "put", "gen": w.rng.next(), "bin_len": big, "token": token, "uri": format!("mv2://big/Doc{c}"), "ts": 1_700_000_000 + c as i64, "instant": false});
+            if !exec_op(&mut w, cfg, &put) { break; }
+            w.rep.count("multi_megabyte_puts");
+            if w.rng.chance(1, 2) {
+                let t2 = w.next_token();
+                let small = json!({"op": "put", "gen": w.rng.next(), "small": true, "token": t2, "uri": format!("mv2://big/S{c}"), "ts": 1_700_000_000 + c as i64});
+                if !exec_op(&mut w, cfg, &small) { break; }
+            }
+            let follow = match w.rng.below(4) { 0 => "reopen", 1 | 2 => "commit", _ => "none" };
+            if follow != "none" && !exec_op(&mut w, cfg, &json!({"op": follow})) { break; }
+            if follow == "reopen" && !w.check_all("after reopen", true) { break; }
+        }
+        finish_history(&mut w);
+    }
+    if w.saw_growth { w.rep.count("histories_with_wal_growth"); }
+    let fp = h64(serde_json::to_string(&w.log).unwrap_or_default().as_bytes());
+    if w.rep.samples.len() < 2 {
+        let head: Vec<Value> = w.log.iter().take(10).cloned().collect();
+        w.rep.sample(json!({"big_history_head": head, "ops": w.log.len(), "frames": w.model.frames.len()}));
+    }
+    w.mem = None;
+    let _ = std::fs::remove_file(&w.path);
+    fp
 }
 
 /// One random history; returns the op log fingerprint.
